@@ -55,6 +55,9 @@ type Outcome struct {
 	StallAt  int           // stall after this many bytes (-1 = none)
 	StallFor time.Duration // virtual/real sleep during the stall (0 = yield a few times)
 	Late     time.Duration // sleep after the bytes are visible, before returning
+	// UntilClosed: the peer has stopped reading and the send buffer is full: after StallAt bytes
+	// (0 if negative) the call blocks until the connection is closed and then fails
+	UntilClosed bool
 }
 
 // Conn is one end of an in-memory connection: the library reads what the
@@ -94,9 +97,9 @@ type Conn struct {
 	// the io.Reader contract allows and e.g. crypto/tls does.
 	ErrWithData bool
 	ReadCalls   int
-	ReadBytes  int
-	closedCh   chan struct{}
-	closeOnce  sync.Once
+	ReadBytes   int
+	closedCh    chan struct{}
+	closeOnce   sync.Once
 }
 
 func NewConn() *Conn {
@@ -271,6 +274,15 @@ func (c *Conn) Write(b []byte) (int, error) {
 	if n < 0 || n > len(b) {
 		n = len(b)
 	}
+	if out.UntilClosed {
+		k := max(out.StallAt, 0)
+		k = min(k, len(b))
+		c.mu.Lock()
+		c.wlog = append(c.wlog, WriteRec{Seq: seq, T0: t0, Data: append([]byte(nil), b[:k]...), Asked: len(b), Err: ErrClosed, Stall: k})
+		c.mu.Unlock()
+		<-c.closedCh
+		return k, ErrClosed
+	}
 	rec := WriteRec{Seq: seq, T0: t0, Asked: len(b), Err: out.Err, Stall: -1}
 	if out.StallAt >= 0 && out.StallAt < n {
 		rec.Stall = out.StallAt
@@ -363,9 +375,10 @@ func (c *Conn) CloseCount() int {
 	return c.closes
 }
 
-func (c *Conn) LocalAddr() net.Addr                { return c.Local }
-func (c *Conn) RemoteAddr() net.Addr               { return c.Remote }
-func (c *Conn) SetDeadline(t time.Time) error      { return nil }
+func (c *Conn) LocalAddr() net.Addr           { return c.Local }
+func (c *Conn) RemoteAddr() net.Addr          { return c.Remote }
+func (c *Conn) SetDeadline(t time.Time) error { return nil }
+
 // SetReadDeadline is honoured by Read (virtual time inside a synctest bubble).
 func (c *Conn) SetReadDeadline(t time.Time) error {
 	c.mu.Lock()
@@ -446,7 +459,7 @@ type FragReader struct {
 	Err       error // returned once drained (default io.EOF)
 	Delivered int
 	Calls     int
-	Requested int // sum of len(p) over all calls
+	Requested int   // sum of len(p) over all calls
 	CallsAt   []int // Delivered at entry of each call
 }
 
